@@ -1,5 +1,5 @@
 """C16 — address types: text round-trip, ordering and range arithmetic are exact."""
-import random, socket
+import collections, random, socket
 from vlib import core, corr
 
 AREA = "C16"
@@ -353,7 +353,15 @@ def run(chk):
     ops = boundary_ops(thorough)
     ops += gen_ops(rng, 6000 if not thorough else 60000, 9)
     ops += gen_ops(rng, 150 if not thorough else 3000, 16)
-    stats = corr.correspond(chk, AREA, exe, ops, case_start=CASE_START, classify=classify, sig_of=sig_of)
+    # one comparison per op group, so that a flood of failures of one kind cannot use up the report budget of another
+    groups = {}
+    for o in ops:
+        k = o.split(" ", 1)[0]
+        g = "text" if k in ("txt", "fmt") else "range" if k in ("pfx", "msk", "rng") else "value"
+        groups.setdefault(g, []).append(o)
+    stats = collections.Counter()
+    for g in sorted(groups):
+        stats += corr.correspond(chk, AREA, exe, groups[g], case_start=CASE_START, classify=classify, sig_of=sig_of)
     if thorough:
         for _ in range(3):
             stats += corr.correspond(chk, AREA, exe, gen_ops(rng, 60000, 10), case_start=CASE_START,
